@@ -1,10 +1,10 @@
 #!/bin/bash
 # usage: try_seed.sh <patch.diff> <Cxx> [Cyy ...]  : apply a seeded change to /repo, run the checks, undo it.
 p=$1; shift
-cd /repo && git apply "$p" || { echo "APPLY FAILED"; exit 2; }
+cd /repo && { git apply "$p" 2>/dev/null || git apply --3way "$p" 2>/dev/null; } || { echo "APPLY FAILED"; git -C /repo checkout -- . ; exit 2; }
 for c in "$@"; do
   out=$(cd /verif && ./check $c --no-evidence 2>&1)
   echo "$out" | grep -E "VIOLATION|: rule " | cut -c1-260
   echo "$out" | tail -1
 done
-cd /repo && git checkout -- . && git status --short | head -3
+cd /repo && git reset -q --hard HEAD && git status --short | head -3
